@@ -213,13 +213,73 @@ theorem C08_delete_assoc_hasmany (p u : Bool) :
   intro a ha harm
   rw [C08_delete_assoc_partial p u a ha (Or.inr (C08_delete_assoc_arms_current_tree.2.2 a ha harm))]
 
-/-- **FINDING F33 (kernel-checked on the regenerated arm)**: the many2many arm builds its handle on a NewDB session and does not
-    copy Unscoped: under `db.Unscoped().Select("Teams").Delete(&owner)` (default config) the Delete of the link rows is a SCOPED
-    one — for a soft-deletable join model the link rows are marked instead of removed, and already marked links are not reached. -/
+/-- **FINDING F33 (kernel-checked, the model with the copy absent)**: an arm that builds its handle on a NewDB session and does
+    not copy Unscoped — the many2many arm of the unrepaired tree: under `db.Unscoped().Select("Teams").Delete(&owner)` (default
+    config) the Delete of the link rows is a SCOPED one — for a soft-deletable join model the link rows are marked instead of
+    removed, and already marked links are not reached.  (Stated on the model with the flag off, so that it holds on the repaired
+    tree as well; `C08_delete_assoc_current_tree` says which of the two this tree is.) -/
 theorem C08_delete_assoc_m2m_counterexample :
-    ∃ a ∈ Gen.deleteAssocArms, a.arm = "schema.Many2Many" ∧
+    ∃ a : Gen.DeleteAssocArm, a.arm = "schema.Many2Many" ∧ a.newDB = true ∧ a.copiesUnscoped = false ∧
       nestedDeleteUnscoped false true a.newDB a.copiesUnscoped = false ∧
-      deleteKind (nestedDeleteUnscoped false true a.newDB a.copiesUnscoped) = .mark := by
-  decide
+      deleteKind (nestedDeleteUnscoped false true a.newDB a.copiesUnscoped) = .mark :=
+  ⟨{ arm := "schema.Many2Many", newDB := true, copiesUnscoped := false, deletes := true }, by decide⟩
+
+/-- **FULL STRENGTH (the model with the copy present on every arm — the repair of F33)**: when every deleting arm that works
+    on a NewDB session copies Unscoped by hand, the nested Delete of EVERY arm sees exactly the user's flag, whatever
+    Config.PropagateUnscoped says: `db.Unscoped().Select(rel).Delete(&owner)` removes the related rows / link rows physically,
+    `db.Select(rel).Delete(&owner)` marks them.  No hypothesis about the arm or the configuration is left. -/
+theorem C08_delete_assoc_full (arms : List Gen.DeleteAssocArm) (hall : deleteAssocAllCopy arms = true) (p u : Bool) :
+    ∀ a ∈ arms, a.deletes = true →
+      nestedDeleteUnscoped p u a.newDB a.copiesUnscoped = u ∧
+      deleteKind (nestedDeleteUnscoped p u a.newDB a.copiesUnscoped) = deleteKind u := by
+  intro a ha hd
+  have h := (List.all_eq_true.mp hall) a ha
+  have hu : nestedDeleteUnscoped p u a.newDB a.copiesUnscoped = u := by
+    rw [hd] at h
+    cases u <;> cases p <;> cases hc : a.copiesUnscoped <;> cases hn : a.newDB <;> simp_all [nestedDeleteUnscoped]
+  exact ⟨hu, by rw [hu]⟩
+
+/-- the same through the driver's entry point: on a tree whose arms all copy, a relation kind that has an arm is deleted with
+    the user's flag -/
+theorem C08_delete_assoc_flag_full (arms : List Gen.DeleteAssocArm) (hall : deleteAssocAllCopy arms = true)
+    (hdel : ∀ a ∈ arms, a.deletes = true) (arm : String) (p u : Bool) :
+    deleteAssocFlag arms arm p u = none ∨ deleteAssocFlag arms arm p u = some u := by
+  unfold deleteAssocFlag
+  cases hf : arms.find? (fun a => a.arm == arm) with
+  | none => left; rfl
+  | some a =>
+    right
+    have ha := List.mem_of_find?_eq_some hf
+    simp [(C08_delete_assoc_full arms hall p u a ha (hdel a ha)).1]
+
+/-- without the copy the many2many arm of ANY arm list answers "scoped" under the default configuration: the copy is necessary -/
+theorem C08_delete_assoc_copy_needed (arms : List Gen.DeleteAssocArm) :
+    ∀ a ∈ arms, a.newDB = true → a.copiesUnscoped = false → nestedDeleteUnscoped false true a.newDB a.copiesUnscoped = false := by
+  intro a _ hn hc
+  simp [nestedDeleteUnscoped, hn, hc]
+
+/-- **THE TREE AS IT IS NOW** (regenerated arms): either every arm copies Unscoped and the nested Delete of every arm follows
+    the user's flag under every configuration (F33 repaired), or the many2many arm does not and the listed witness
+    `db.Unscoped().Select("Teams").Delete(&owner)` marks the link rows (F33 present) -/
+theorem C08_delete_assoc_current_tree :
+    Gen.deleteAssocFound = true ∧ (∀ a ∈ Gen.deleteAssocArms, a.deletes = true) ∧
+    ((deleteAssocAllCopy Gen.deleteAssocArms = true ∧
+        ∀ (p u : Bool), ∀ a ∈ Gen.deleteAssocArms,
+          nestedDeleteUnscoped p u a.newDB a.copiesUnscoped = u ∧
+          deleteKind (nestedDeleteUnscoped p u a.newDB a.copiesUnscoped) = deleteKind u) ∨
+     (deleteAssocAllCopy Gen.deleteAssocArms = false ∧
+        deleteAssocFlag Gen.deleteAssocArms "schema.Many2Many" false true = some false ∧
+        ∃ a ∈ Gen.deleteAssocArms, a.arm = "schema.Many2Many" ∧
+          deleteKind (nestedDeleteUnscoped false true a.newDB a.copiesUnscoped) = .mark)) := by
+  have hdel : ∀ a ∈ Gen.deleteAssocArms, a.deletes = true := by decide
+  refine ⟨by decide, hdel, ?_⟩
+  by_cases h : deleteAssocAllCopy Gen.deleteAssocArms = true
+  · left
+    exact ⟨h, fun p u a ha => C08_delete_assoc_full _ h p u a ha (hdel a ha)⟩
+  · right
+    have h' : deleteAssocAllCopy Gen.deleteAssocArms = false := by simpa using h
+    refine ⟨h', ?_⟩
+    revert h'
+    decide
 
 end Gorm
